@@ -46,7 +46,7 @@ def collect_instructions(year, fname):
                 ln = pdfread.speak_line_number(wd.speak)
                 if ln is None:
                     continue
-                r = instr.parse(wd.speak, order, ln)
+                r = instr.parse(pdfread.strip_heading(wd.speak), order, ln)
                 if r is None:
                     unparsed.append(pf.field_name)
                     continue
@@ -122,6 +122,16 @@ def term_z3(term, year, form, cat):
     if k == 'ite_gt':
         a, b = term_z3(term[1], year, form, cat), term_z3(term[2], year, form, cat)
         return z3.If(a > b, term_z3(term[3], year, form, cat), term_z3(term[4], year, form, cat))
+    if k == 'addrows':
+        rows = sorted(n for n in cat.fields if n.startswith(f'{form.name()}.{term[1]}_amount_'))
+        if not rows:
+            raise NoSuchLine(f'{form.name()}.{term[1]}_amount_*')
+        r = z3.RealVal(0)
+        for full in rows:
+            kind, ecls, opt = linevc.field_kind(cat.fields[full])
+            t = linevc.read_symbol('v', full, kind, ecls)
+            r = r + (z3.ToReal(t) if kind == 'int' else t)
+        return r
     if k == 'ceilmult':
         m = z3.RealVal(str(term[1]))
         x = term_z3(term[2], year, form, cat)
@@ -160,6 +170,8 @@ def eval_native(term, form, values, inputs):
         return max(eval_native(t, form, values, inputs) for t in term[1])
     if k == 'ite_gt':
         return eval_native(term[3], form, values, inputs) if eval_native(term[1], form, values, inputs) > eval_native(term[2], form, values, inputs) else eval_native(term[4], form, values, inputs)
+    if k == 'addrows':
+        return sum(Fraction(repr(float(v or 0.0))) for n, v in values.items() if n.startswith(f'{form.name()}.{term[1]}_amount_'))
     if k == 'ceilmult':
         import math
         x = eval_native(term[2], form, values, inputs)
